@@ -225,67 +225,67 @@ PROPS = {
                 note="Trusts clang 14 ASan/UBSan, the seam layer (objcopy symbol redirection) and the harness; allocation failure is excluded here (C18); NULL+0 is benign by policy.",
                 technique="deterministic simulation with fault injection (seeded schedules, gaps/close/abort/callback/clock/fs faults) under ASan+UBSan with exact allocation accounting",
                 design_ref="DESIGN.md section 7 C01", rule="seeded chaos plans: grammar traffic, .t captures and mutations of both, every segmentation strategy, legal and illegal interleavings, gaps, close/req-close/abort at arbitrary points, API misuse, scripted callback behaviours, clock and file-layer faults, random points of the configuration lattice. Oracle: no ASan/UBSan report, virtual-CPU budget per call, exact live-allocation set empty after teardown. Non-trivial = run completed >= 1 transaction and contained >= 1 cut or fault; distinct = distinct behaviour signature (hash of the sequence of (direction, parser state before the call, return code, callbacks fired))."),
-    "C02": dict(flavor="san", level="exploration", registered=False,
+    "C02": dict(flavor="san", level="exploration",
                 claim="Ground-truth oracle: seeded actors build each message from a structured spec (the reference model never parses bytes) and the reported transactions are compared field by field with what was sent, inside multi-message connections delivered by the simulated wire.",
                 note="Domain is the grammar of DESIGN.md section 4 (CRLF line ends, known methods, token header names, no ':' in response continuation lines, no repeated Content-Length); hostname compared case-insensitively.",
                 technique="deterministic simulation: seeded actors with ground truth + wire schedules; history check of reported transactions against the actors' record",
                 design_ref="DESIGN.md section 7 C02",
                 rule="1-16 well-formed exchanges per connection from the grammar (folded/repeated/many headers, CL/chunked(+ext,+trailers)/close bodies, absolute and origin targets, cookies, Basic/Digest credentials, query and urlencoded body parameters, HEAD/204/304/interim-100), all 9 personalities; half of the runs use one chunk per message, the rest random legal interleavings and chunkings. Every field the spec determines is compared with the reported transaction. Non-trivial/distinct as for C01."),
-    "C04": dict(flavor="san", level="exploration", registered=False,
+    "C04": dict(flavor="san", level="exploration",
                 claim="Seeded search over legal interleavings and chunkings of 1-40 tagged exchanges; pairing, order, count, completion after close and the pipelining indicator (computed from the op list with a stated tolerance window) are checked on every run.",
                 note="Legal = every byte of request i is offered before the first byte of response i. The indicator must be set when a whole request line was offered before the previous response began, must not be set when every request began after the previous response began; in between either value is accepted.",
                 technique="deterministic simulation: seeded interleaving/chunking schedules of two actors' streams; history check with unique ids",
                 design_ref="DESIGN.md section 7 C04",
                 rule="N in 1..40 tagged exchanges (id in the request target and in an X-Sim-Id response header), short bodies, all framings, HEAD/204/304/interim 100; random legal interleavings (request bias 20/50/80/100 %) x chunking strategies. Non-trivial/distinct as for C01."),
-    "C06": dict(flavor="san", level="exploration", registered=False,
+    "C06": dict(flavor="san", level="exploration",
                 claim="Conservation oracle: bytes handed to the body callbacks equal the entity body the actor sent (per transaction and direction), end-of-body marker before completion, length fields equal the accounting; plus the all-input accounting invariants evaluated in every chaos and well-formed run.",
                 note="Ground-truth half: no content coding, CRLF grammar; message_len for chunked bodies counts from the first chunk-size line through the last-chunk line (htp.h).",
                 technique="deterministic simulation: seeded framings x hostile bodies x wire schedules; conservation check of delivered body bytes against the actor's record",
                 design_ref="DESIGN.md section 7 C06",
                 rule="well-formed exchanges with hostile bodies (CR/LF/NUL, look-alike request/status/chunk-size lines), CL / chunked (sizes 1..n, extensions, trailers) / close-delimited, bodies up to 20 KB; all segmentation strategies and legal interleavings. Non-trivial/distinct as for C01."),
-    "C11": dict(flavor="san", level="exploration", registered=False,
+    "C11": dict(flavor="san", level="exploration",
                 claim="Seeded search over spellings, positions, casings, optional white space and wire segmentations of each ambiguity trigger the actor applies to a well-formed request; the corresponding indicator must be set on that transaction and a chunked body must be framed by the chunked coding.",
                 note="One-directional, as the statement is: trigger present => flag set. Untouched messages are counted as controls, never raised. 'Unparseable Content-Length' means no usable number (empty, non-numeric, overflow); libhtp's lenient acceptance of junk around digits is not litigated.",
                 technique="deterministic simulation: seeded actors apply triggers, wire schedules vary segmentation; spec-level predicate => flag on the reported transaction",
                 design_ref="DESIGN.md section 7 C11",
                 rule="19 triggers (TE+CL both orders, two CL same/different, folded CL, chunked on HTTP/1.0, CL empty/non-numeric/overflow, unsupported TE, target host/port differs from Host, Host missing on 1.1, invalid Host header (bad char, empty label, bad port, unclosed IPv6), invalid target host/port) x random header order/casing/OWS among 0-70 other headers x 1-3 exchanges x all segmentation strategies. Non-trivial/distinct as for C01."),
-    "C16": dict(flavor="san", level="exploration", registered=False,
+    "C16": dict(flavor="san", level="exploration",
                 claim="Seeded search over CONNECT / upgrade exchanges x response status x what follows x legal interleavings x segmentations; checks suspension of the request side, tunnel mode (TUNNEL for every later call, no callbacks, no new transactions) and exact resumption of HTTP parsing after a refusal or when the tunnel carries plain HTTP.",
                 note="Tunnel payload is modelled as client-speaks-first (the server's tunnel bytes are offered after the client's); TLS-looking payload contains a NUL early, as real handshakes do.",
                 technique="deterministic simulation: two actors around a CONNECT/upgrade, seeded interleaving of the two directions incl. request bytes beyond the CONNECT head before/after the response; history checks on return codes, consumed counts, callbacks and transactions",
                 design_ref="DESIGN.md section 7 C16",
                 rule="0-2 ordinary exchanges, then CONNECT (or GET+Upgrade) with status 200/204/299/101/407/403/502/400/500/302, followed by plain HTTP exchanges, TLS-looking bytes or nothing; request bias 20-100 % (100 = all request bytes first, i.e. beyond the CONNECT head in the same or next chunk); all segmentation strategies. Non-trivial/distinct as for C01."),
-    "C07": dict(flavor="san", level="exploration", registered=False,
+    "C07": dict(flavor="san", level="exploration",
                 claim="Fidelity: payloads encoded by the actors (zlib gzip/raw/zlib-wrapped, liblzma LZMA-alone, two-layer lists, mislabelled and plain bodies) are delivered through every segmentation of the compressed stream and compared with the original payload, under a simulated well-behaved clock. Bound: in every run (incl. the chaos mix with small bomb limits, corrupted streams and clock faults) delivered bytes per message stay within max(limit, 2048 x compressed) + one output buffer and the decompressor chain within the layer limit.",
                 note="Encoders (zlib deflate, liblzma) are trusted actor code; lzma is not mixed into multi-codec lists (libhtp decodes in listed order, the RFC lists in applied order; gzip/deflate mixes are rescued by libhtp's restart logic). The gettimeofday seam advances 1 us per read.",
                 technique="deterministic simulation: seeded chunkings of the compressed stream under a simulated clock; conservation oracle against the actor's payload + online bound invariant",
                 design_ref="DESIGN.md section 7 C07",
                 rule="9 payload kinds (empty, 1 B, text, random, 8191/8192/8193/16384, 20-70 KB low entropy, up to 200 KB highly compressible, 9-30 KB incompressible) x 11 codings x {CL, chunked, close} x {single-cut sweep over the first/last 40 bytes of the compressed body, 1-5 byte chunks, tiny first chunks then large, all general strategies}; every 4th run is a chaos plan (captures incl. compressed ones, mutations, small bomb limits, clock faults) with only the bound invariants. Non-trivial/distinct as for C01."),
-    "C14": dict(flavor="san", level="exploration", registered=False,
+    "C14": dict(flavor="san", level="exploration",
                 claim="Ground truth + differential: multipart bodies wrapped by the actor around parts it chose are parsed through the public streaming API under EVERY single cut (bodies <= 1 KiB; 64 sampled cuts above) plus a seeded multi-cut schedule, and through the connection parser under random wire schedules; parts, file bytes, flags and parameters must equal the encoded parts and be identical for every chunking.",
                 note="Boundary delimiters never occur inside generated part content (near-misses do); with LF-only line ends CR is not generated inside content. Simulated file layer for extracted files (no faults in this scenario).",
                 technique="deterministic simulation: exhaustive single-cut sweep + seeded multi-cut schedules of the body stream, through the streaming API and through the simulated connection; ground-truth and differential oracles",
                 design_ref="DESIGN.md section 7 C14",
                 rule="boundaries (1-70 chars, '--', 'a', 'boundary', self-overlapping), 0-8 text/file parts, names/filenames with escaped quotes and backslashes, contents built from CR/LF/dash near-boundary fragments and random bytes, optional preamble/epilogue/part Content-Type, CRLF or LF line ends; 3/4 direct API (whole + every single cut + one multi-cut schedule per body), 1/4 through the connection parser (CL or chunked, reference vs variant chunking). evaluations counts every parse; distinct = distinct result signature."),
-    "C15": dict(flavor="san", level="exploration", registered=False,
+    "C15": dict(flavor="san", level="exploration",
                 claim="Reference + differential: each seeded string is parsed whole through the public streaming API and compared with an independent implementation of the statement's rule (split on '&', first '=', drop only a final empty piece, decode per configuration), then under EVERY single cut (strings <= 80 bytes; 24 sampled cuts above) and one seeded multi-cut schedule, which must give the identical result; 1/5 of the runs go through the connection parser as a POST body.",
                 note="The reference decoder models percent/plus decoding with the three invalid-encoding handlings and the two NUL-termination switches; with %u decoding enabled only the chunking-invariance half is asserted.",
                 technique="deterministic simulation: exhaustive single-cut sweep + seeded multi-cut schedules of the parameter stream; executable reference model as oracle",
                 design_ref="DESIGN.md section 7 C15",
                 rule="strings over {a = & % + 1 NUL b f u G SP 0} of length 0-8 and 0-64, random byte strings of 65-2000 bytes with separators mixed in; decoder configurations: invalid handling x3, plusspace x2, NUL-terminates switches, %u decoding. evaluations counts every parse; distinct = distinct result signature."),
-    "C08": dict(flavor="plain", level="exploration", registered=False,
+    "C08": dict(flavor="plain", level="exploration",
                 claim="Cost is made a simulated quantity: a compiler-inserted callback counts libhtp basic blocks (virtual CPU clock, exactly repeatable, machine independent). Each pump pattern is run along a doubling ladder of repetition counts under whole, one-byte and geometric delivery; ticks per unit of allowed work (bytes given + bytes buffered + 1 per call) must not grow along the ladder, and no single call may exceed a fixed cost per byte given or buffered.",
                 note="-O2 build without sanitizers (tick counts are per build; thresholds are ratios, plus one absolute per-call constant at 8x the measured maximum). zlib's own work is not counted (bounded by C07). Logging is off: the message list is the caller's to drain.",
                 technique="deterministic simulation with a virtual CPU clock (basic-block counter seam); pump schedules along a doubling ladder x delivery schedules",
                 design_ref="DESIGN.md section 7 C08",
                 rule="28 pump patterns (header lines distinct/same/empty/folded/LF-CR/no-colon, spaces, chunk-size lines, chunk extension, empty lines, parameters in body and query, cookies, multipart parts and near-boundary lines, Content-Encoding tokens, pipelined transactions, interim 100 responses, CR/NUL junk, unexpected body lines, long values) x {whole, 1 byte per call, geometric chunks} x k = 64..8192 (16384 thorough), all personalities. A case = one (pattern, delivery, personality) ladder; evaluations = executions of libhtp."),
-    "C18": dict(flavor="san", level="fault_enumeration", registered=False,
+    "C18": dict(flavor="san", level="fault_enumeration",
                 claim="Fault enumeration over a seeded corpus: for each history the fault-free run counts K allocations (malloc/calloc/realloc/strdup made by libhtp, zlib and the bundled LZMA decoder, from htp_config_create to htp_config_destroy); then the run is repeated with the k-th allocation failing for every k <= K (quick: at most 1200 evenly spaced k per history), plus sustained-pressure runs in which every allocation from k on fails. Oracle: no ASan/UBSan report, every call returns, the per-call API contract keeps holding, teardown completes without double or invalid free.",
                 note="Leaks under an injected failure are counted, not raised (the statement does not promise leak-freedom under failure). The corpus is seeded, not exhaustive; within a history the enumeration over k is complete in the thorough tier.",
                 technique="deterministic simulation with allocation-failure injection at the allocator seam, enumerated over every allocation index of seeded histories",
                 design_ref="DESIGN.md section 7 C18",
                 rule="corpus entries: .t captures, CONNECT scripts, compressed responses (gzip, deflate, lzma, two layers) with cookies/credentials/query parameters, multipart uploads with file extraction, grammar exchanges; random configuration, optional gap/close/abort, per-tx hook registration, tx disposal. A case = (history, k); non-trivial = the injected failure was actually reached; distinct = distinct behaviour signature of the history."),
-    "C19": dict(flavor="own", level="exploration", registered=False,
+    "C19": dict(flavor="own", level="exploration",
                 claim="Three deterministic oracles over 2-8 connections sharing one configuration: (1) each connection's transactions, bodies and callback sequence equal those of the same connection run alone, under call-level interleaving on one thread; (2) the same under one real thread per connection with a seeded baton scheduler that pre-empts at compiler-inserted basic-block callbacks inside libhtp (exactly one thread runnable, switch points decided by a PRNG stored in the plan); (3) a memory-ownership oracle on every load and store libhtp makes (trace-loads/trace-stores build): a store into the shared configuration, its hook lists or a writable static while parsing, or any access to a block allocated by another connection's task, is a violation on first execution, whatever the schedule.",
                 note="TSan is not used for verdicts (blind under a serialising scheduler; free-running threads would be runtime monitoring). The writable-statics watch list is read from the freshly built objects with nm at every run. zlib's own code is not instrumented for loads/stores.",
                 technique="deterministic simulation: seeded baton scheduler over real threads with basic-block pre-emption + call-level interleaving; solo-equivalence and memory-ownership oracles",
